@@ -84,6 +84,9 @@ def _(self: ERef, other: ERef) -> Tuple[str, Opt[int], Opt[ERef]]:
         invariant(forall_of("ERef", lambda x: implies(x in other_ancestors, other_ancestors[x] == Dist(other, x))))
         invariant(forall_of("ERef", lambda x: implies(CRA(self, other, x),
                                                       Dist(self, x) > self_distance or Dist(other, x) > other_distance)))
+        # termination: every iteration moves each live cursor one level closer to the root (or off the tree)
+        decreases((Depth(some(self_current)) + 1 if self_current is not None else 0)
+                  + (Depth(some(other_current)) + 1 if other_current is not None else 0))
         # one unfolding of Anc at the current positions, and the tree invariant at the current elements
         hint(implies(self_current is not None, Anc(self, self_distance + 1) == some(self_current).parent))
         hint(implies(other_current is not None, Anc(other, other_distance + 1) == some(other_current).parent))
